@@ -126,6 +126,12 @@ def check_wrapper(ctx, tu, f, counter):
             else:
                 # condition: the guard is (a helper returning) the call of data->shouldRemove
                 cn = f.strip_all_casts(c)
+                # the test may read a local that holds the call's result (`const bool remove = data->shouldRemove(...)`)
+                if f.nodes[cn]['cls'] == 'DeclRefExpr' and f.decl(cn).get('kind') == 'var':
+                    vd = f.var_decls().get(f.decl(cn)['id'])
+                    vt = f.tu.type(vd['t']) if vd else None
+                    if vd and vd.get('init') and vt and vt.get('const') and not vt.get('ref'):
+                        cn = f.strip_all_casts(vd['init'])
                 okc = any(site == cn for (site, _, _, _, _) in condition_evals(f)) and role == 'true'
                 ctx.ob('C16.W1', f, 'the listener is removed exactly when the condition call returned true', bool(okc), where=f.nloc(c))
     if counter:
